@@ -164,6 +164,8 @@ def call(obj, op, version):
     name = op["op"]
     via_method = op.get("via") == "method" and isinstance(obj, stix2.base._STIXBase)
     sel = copy.deepcopy(op.get("selectors"))
+    if op.get("selectors_tuple") and isinstance(sel, list):
+        sel = tuple(sel)                      # an empty / non-list sequence given as `selectors`
     M = stix2.markings
 
     def f(fname, *args, **kw):
